@@ -663,6 +663,8 @@ class BytesField(Field):
     def encoded_length(self, val, markers: dict) -> int:
         if val is None:
             return 0
+        if isinstance(val, str):
+            val = val.encode('utf-8')
         tl_size = get_tl_num_size(self.type_num) + get_tl_num_size(len(val))
         return tl_size + len(val)
 
